@@ -46,6 +46,7 @@ func checkC16(c *Ctx) {
 	c16Mirror(c)
 	c16Codes(c)
 	c16Echo(c, lists)
+	c16JoinE1(c)
 }
 
 // c16KeyBlocks: R1 (getSKey/getJSKey block layouts and type bytes) is decided by the bit-level engine E1.
